@@ -181,6 +181,8 @@ structure St where
   q : Q := Q.init
   qKeys : List Nat := []
   w : World := ⟨[], [], [], [], [], [], [], 100000⟩
+  rs : RState := RState.init
+  rfactor : Nat := 2
 
 def uoutStr : UOut → String
   | .acquired => "acquired" | .refused => "refused" | .timedOut => "timedOut" | .parked => "parked"
@@ -275,6 +277,18 @@ def stateful (s : St) (toks : List String) : Option (St × String) :=
       let dt ← dt.toNat?
       pure ({ s with ud := (ustep s.ud (.tick dt)).1 }, "ok")
   | ["u.dump"] => some (s, udDump s)
+  | ["r.reset", f] => do pure ({ s with rs := RState.init, rfactor := (← f.toNat?) }, "ok")
+  | ["r.dispatch", t, size, um, om, bav] => do
+      let ev := REvent.dispatch (← t.toNat?) (← size.toNat?) (← decBool um) (← decBool om) (← decOptInt bav)
+      let rs' := rstep s.rfactor s.rs ev
+      pure ({ s with rs := rs' }, s!"{encBool (rs'.live.length != s.rs.live.length)} {rs'.reserved}")
+  | ["r.finish", t, how] => do
+      let h ← match how with
+        | "alreadyPresent" => some PullEnd.alreadyPresent | "noRoute" => some .noRoute
+        | "transportFailed" => some .transportFailed | "digestMismatch" => some .digestMismatch
+        | "success" => some .success | "dbErrorEarly" => some .dbErrorEarly | "dbErrorLate" => some .dbErrorLate | _ => none
+      let rs' := rstep s.rfactor s.rs (.finish (← t.toNat?) h)
+      pure ({ s with rs := rs' }, s!"{rs'.reserved} {encBool rs'.error}")
   | "w.reset" :: _ => some ({ s with w := ⟨[], [], [], [], [], [], [], 100000⟩ }, "ok")
   | ["w.node", i, g, h, a, st, av, mn, mx, rt] => do
       let n : WNode := ⟨← i.toNat?, ← g.toNat?, ← h.toNat?, ← decBool a, ← SType.ofString st, ← decOptInt av, ← decInt mn, ← decOptInt mx, ← decBool rt⟩
